@@ -40,6 +40,9 @@
 //   - in the containment half only the healthy extractor's packages+status, the completion of the scan and
 //     "failing extractor is Failed or PartiallySucceeded" are judged; the overall ScanStatus, the failure
 //     text and the failing extractor's own packages are not.
+//   - resource caps other than java/archive's MaxOpenedBytes (the one the property text names) are not judged;
+//     that one is judged on a second instance with the knob at 256 KiB through bytes allocated per call,
+//     with a limit 2.5x above what honouring the cap can allocate (worker.go).
 //   - temp files / side effects of an extractor (bolt.Open initialising an empty meta.db) belong to C06.
 //   - after a recovered panic the worker process is restarted (locks and mappings leaked by the panicking
 //     call must not influence the next mutant).
@@ -199,6 +202,7 @@ type coord struct {
 	harness   []string
 	slow      []string
 	unitTimes []unitTime
+	budgetPct int
 }
 
 type exStat struct {
@@ -548,6 +552,9 @@ func (c *coord) noteStats(ex string, g msg) {
 	if g.SlowMs > st.SlowMs {
 		st.SlowMs = g.SlowMs
 	}
+	if g.Pct > c.budgetPct {
+		c.budgetPct = g.Pct
+	}
 	c.mu.Unlock()
 }
 
@@ -661,6 +668,11 @@ func secondarySeeds(set string) []seedInfo {
 	for _, n := range def.Inline {
 		add("i:"+n, []byte(inline[n]))
 	}
+	for _, id := range def.Full {
+		if b, _, err := loadSeed(id); err == nil {
+			add(id, b)
+		}
+	}
 	if !def.NoMinimal {
 		for _, d := range minimalDocs {
 			add("m:"+d.Name, []byte(d.Data))
@@ -684,7 +696,7 @@ func secondarySeeds(set string) []seedInfo {
 				continue
 			}
 			b, err := os.ReadFile(f)
-			if err != nil {
+			if err != nil || (def.MaxSize > 0 && len(b) > def.MaxSize) {
 				continue
 			}
 			rel, _ := filepath.Rel(ev.RepoDir(), f)
@@ -769,7 +781,12 @@ func main() {
 		}
 		c.perEx[n] = &exStat{}
 		for _, x := range sp.ExtraSeeds {
-			seeds = append(seeds, seedInfo{ID: "i:" + x, Size: len(inline[x])})
+			if !strings.Contains(x, ":") {
+				x = "i:" + x
+			}
+			if b, _, err := loadSeed(x); err == nil {
+				seeds = append(seeds, seedInfo{ID: x, Size: len(b)})
+			}
 		}
 		for ci, cd := range sp.Cands {
 			ss := seeds
@@ -988,6 +1005,7 @@ func main() {
 		su = append(su, fmt.Sprintf("%s: %.1fs (started at %.1fs)", ut.what, ut.dur.Seconds(), ut.start.Seconds()))
 	}
 	r.Set("slowest_units", su)
+	r.Set("tight_budget_max_alloc_percent_of_limit", c.budgetPct)
 	sort.Strings(c.harness)
 	for i, h := range c.harness {
 		if i < 8 {
@@ -1009,13 +1027,14 @@ func main() {
 	b := boundsFor(tier)
 	rule := fmt.Sprintf("for each of %d offline built-in extractors x each placement (paths.go, validated against FileRequired; a placement is either the file handed to Extract or a SECONDARY file the extractor opens through input.FS — os-release, chrome message.json, go.sum, -r includes, local parent pom.xml, containerd metadata.db/status — next to a healthy primary file) x each seed of that placement (every testdata fixture of the extractor resp. of the secondary format, inline minimal valid documents, %d minimal documents incl. empty/whitespace/null/lone quote/lone key; identical contents merged): "+
 		"every mutant of operator set v1 — identity; truncate at every offset (seeds <= %d B; larger: every 512-byte boundary); delete / duplicate / swap-adjacent line i (seeds <= %d B); "+
-		"replace byte i by each of 16 structural tokens at every offset (seeds <= %d B) or at line starts (seeds <= %d B); delete / duplicate byte i (seeds <= %d B); replace each value token or balanced bracket group by null (text seeds <= %d B); truncate line i at every column with the rest of the file kept, and drop the first k bytes of line i (text seeds <= %d B, lines <= 200 B); set each byte of the first 1 KiB to 00/ff (binary seeds, thorough=%v) — "+
+		"replace byte i by each of 16 structural tokens at every offset (seeds <= %d B) or at line starts (seeds <= %d B); delete / duplicate byte i (seeds <= %d B); replace each value token or balanced bracket group by null (text seeds <= %d B); truncate line i at every column with the rest of the file kept, and drop the first k bytes of line i (text seeds <= %d B, lines <= 200 B); insert each of 4 case-length-changing sequences (invalid byte, U+023A, U+212A, U+0250) at file start, line starts, around ':' '=' and at word boundaries (text seeds <= %d B) and replace line i by such a sequence + its first k bytes (text seeds <= %d B); set each byte of the first 1 KiB to 00/ff (binary seeds, thorough=%v) — "+
 		"is placed and Extract is called with a complete ScanInput. CONTAINER-AWARE: for the zip-reading extractors (java/archive, python/wheelegg .egg) every zip fixture (<= 64 KiB quick / 256 KiB thorough) and two archives built from scratch (jar: MANIFEST.MF + pom.properties; egg: PKG-INFO) are unpacked, the same operators are applied to each inner text entry (first 16; for the first 4 also to every minimal document and to every loose fixture of the same base name put in its place) and the archive is re-packed with the same entry order and methods; plus archive-level operators drop / duplicate / empty entry i. "+
+		"RESOURCE CAP: java/archive is additionally run as a second instance with Config.MaxOpenedBytes = 256 KiB over the small jar fixtures and 7 built nested-archive shapes (2/8/400 inner *.jar entries that are not archives, healthy inner jars, a mix, three levels of nesting); one Extract may allocate at most 32 x that budget + 64 x file size + 8 MiB (honouring the cap allocates <= 12.5 x budget), else `java/archive:opened-bytes-budget`. "+
 		"Oracle: Extract must return (no panic, no process death, no stack overflow, no RLIMIT_AS 8 GiB abort, answer within the %v watchdog, which covers the parsing of secondary files too; os/rpm runs with its own Timeout knob set to 8 s quick / 30 s thorough). "+
 		"evaluations = Extract calls + containment scans; distinct_nontrivial = distinct (extractor, placement, mutant bytes) whose Extract returned an error or >= 1 package (empty error-free results are not counted). "+
 		"Containment: for each extractor and each error class (first 48 chars of the error text, paths/quoted text/digits removed; first %d classes per extractor in enumeration order) the first mutant of that class is scanned by scalibr.Scanner.Scan next to a healthy requirements.txt (dpkg status for python/requirements): "+
 		"the scan completes, the healthy extractor's packages and status equal those of the scan without the bad file, and the failing extractor's status is Failed or PartiallySucceeded.",
-		len(names), len(minimalDocs), b.truncAll, b.lineOps, b.sigmaAll, b.sigmaLine, b.byteOps, b.nullify, b.lineCut, b.binFF, c.watchdog, maxClassesPerExtractor)
+		len(names), len(minimalDocs), b.truncAll, b.lineOps, b.sigmaAll, b.sigmaLine, b.byteOps, b.nullify, b.lineCut, b.caseIns, b.caseLine, b.binFF, c.watchdog, maxClassesPerExtractor)
 	r.Finish(rule, true)
 }
 
